@@ -131,7 +131,7 @@ def gen_data(rng, nr):
 
 def check_gmm(run, tier, rng):
     from tempest.cluster import GaussianMixture
-    reps = 40 if tier == "quick" else 500
+    reps = 200 if tier == "quick" else 800
     mstep_cases = []
     for t in range(reps):
         nr = np.random.RandomState(rng.randrange(2 ** 31))
@@ -179,6 +179,14 @@ def check_gmm(run, tier, rng):
                     and np.allclose(g1.covariances_, g2.covariances_, rtol=1e-5, atol=1e-9)
                 if not ok:
                     run.fail("integer-weights-not-replication", "three EM steps on (X, integer w) and on the replicated data differ", **what)
+                # ... and to convergence with the default stopping rule: the rule itself must see the weights as replication does
+                g3 = GaussianMixture(n_components=K, covariance_type=ct, random_state=7).fit(X, w)
+                g4 = GaussianMixture(n_components=K, covariance_type=ct, random_state=7).fit(Xr, None)
+                sc_ = 1 + np.abs(X).max()
+                if not (np.allclose(g3.weights_, g4.weights_, rtol=1e-6, atol=1e-8) and np.allclose(g3.means_, g4.means_, rtol=1e-6, atol=1e-8 * sc_)
+                        and np.allclose(g3.covariances_, g4.covariances_, rtol=1e-5, atol=1e-8 * sc_ ** 2)):
+                    run.fail("integer-weights-not-replication", f"fits to convergence on (X, integer w) and on the replicated data differ: means differ by "
+                             f"{float(np.max(np.abs(g3.means_ - g4.means_))):.3g}, weights by {float(np.max(np.abs(g3.weights_ - g4.weights_))):.3g}", **what)
             except Exception as e:
                 run.fail("gmm-fit-raises", f"replication fit raised {type(e).__name__}: {e}", **what)
         # one M-step on small dyadic data for the Coq model
@@ -229,7 +237,7 @@ Eval vm_compute in map (fun p => (map enc (fst p), map enc (snd p))) [
 def check_hgmm(run, tier, rng, reps=None, only_groups=False):
     from tempest.cluster import HierarchicalGaussianMixture
     if reps is None:
-        reps = 25 if tier == "quick" else 300
+        reps = 150 if tier == "quick" else 500
     for t in range(reps):
         nr = np.random.RandomState(rng.randrange(2 ** 31))
         X, w, kind, wk = gen_data(rng, nr)
@@ -240,7 +248,7 @@ def check_hgmm(run, tier, rng, reps=None, only_groups=False):
             # several groups of unequal size, some with a satellite smaller than min_points: more than one candidate
             # split per round, and the most "improving" candidate may be the one the size guard must refuse
             d = rng.choice([1, 2, 3])
-            min_points = rng.choice([2 * d + 2, 8, 12])
+            min_points = rng.choice([2 * d + 2, 8, 12, 1, 2])     # incl. minimum sizes below the dimension (clusters of fewer than d points)
             groups, centre = [], 0.0
             for g in range(rng.choice([2, 3, 4])):
                 centre += rng.choice([2.0, 6.0, 30.0])
@@ -250,7 +258,7 @@ def check_hgmm(run, tier, rng, reps=None, only_groups=False):
                 if rng.random() < 0.6:
                     c2 = c.copy()
                     c2[-1] += rng.choice([5.0, 12.0])
-                    groups.append(nr.randn(rng.randrange(1, min_points), d) * 0.05 + c2)
+                    groups.append(nr.randn(rng.randrange(1, max(min_points, d + 1)), d) * 0.05 + c2)
             order = list(range(len(groups)))
             rng.shuffle(order)
             X = np.vstack([groups[i] for i in order])
